@@ -27,7 +27,7 @@ RULE = ("Each case runs a seeded history of up to 40 (thorough 100) operations o
 COMPONENTS = dict(real=["hio.base.hier.durqing.Durq", "hio.base.hier.dusqing.Dusq", "hio.base.hier.holding.Hold", "hio.base.during.Subery/Duror/DomIoSuber/DomIoSetSuber", "LMDB"],
                   stub=["process death (fork + os._exit at a traced line)"])
 ASSUMPTIONS = ["crash = process death; the page cache survives, LMDB's own fsync discipline is trusted"]
-PROBES = ["store_and_containers_in_one_update", "reopen_nonempty", "crash_inside_operation", "dusq_remove", "dusq_duplicate_push", "extend_with_duplicates", "pull_empty", "clear_nonempty"]
+PROBES = ["store_and_containers_in_one_update", "reopen_nonempty", "crash_inside_operation", "dusq_remove", "dusq_duplicate_push", "extend_with_duplicates", "pull_empty", "clear_nonempty", "preloaded_container_onto_stored_content"]
 BOUNDS = dict(quick=dict(ops=40), thorough=dict(ops=100))
 TIERS = dict(quick=dict(cases=2400, wall=60.0), thorough=dict(cases=60000, wall=420.0))
 SIM_TIME_UNIT = "operations"
@@ -67,6 +67,7 @@ def gen_history(tape, maxops):
 
 class World:
     together = False      # how the Hold gets its store and containers (set per case)
+    preload = None        # (queue values, set values) every freshly injected container is constructed with (set per case)
 
     def __init__(self, path):
         self.path = path
@@ -75,8 +76,14 @@ class World:
     def open(self):
         self.subery = store.open_subery(self.path)
         self.hold = Hold()
-        self.q = Durq()
-        self.s = Dusq()
+        if World.preload:
+            # containers that arrive with content of their own: it is written through if nothing is stored under the key, and
+            # gives way to the stored content otherwise
+            self.q = Durq([mk(v) for v in World.preload[0]])
+            self.s = Dusq([mk(v) for v in World.preload[1]])
+        else:
+            self.q = Durq()
+            self.s = Dusq()
         if World.together:
             # store and containers arrive in one update() call, the containers listed first
             self.hold.update({"queue": self.q, "set": self.s, "_hold_subery": self.subery})
@@ -171,9 +178,24 @@ def apply_real(w, which, op, arg):
     raise HarnessError(op)
 
 
+def _preloaded(mq, ms, res):
+    """model of injecting preloaded containers: where nothing is stored the preloaded content becomes the content"""
+    if World.preload:
+        if not mq:
+            mq.extend(World.preload[0])
+        else:
+            res.probes["preloaded_container_onto_stored_content"] += 1
+        if not ms:
+            for v in World.preload[1]:
+                ms[v] = True
+        else:
+            res.probes["preloaded_container_onto_stored_content"] += 1
+
+
 def run_inprocess(hist, res, path):
     w = World(path)
     mq, ms = deque(), {}
+    _preloaded(mq, ms, res)
     dup_seen = False
     try:
         for i, (which, op, arg) in enumerate(hist):
@@ -185,6 +207,7 @@ def run_inprocess(hist, res, path):
                         res.nontrivial = True
                 w.close()
                 w.open()
+                _preloaded(mq, ms, res)
             else:
                 exp = apply_model(mq, ms, which, op, arg)
                 try:
@@ -339,6 +362,10 @@ def run_case(tape, tier):
     World.together = tape.flag("hold_update_together", 1, 3)
     if World.together:
         res.probes["store_and_containers_in_one_update"] += 1
+    World.preload = None
+    if not crash and tape.flag("preloaded_containers", 1, 3):
+        World.preload = ([POOL[tape.draw("pre_q", len(POOL))] for _ in range(1 + tape.draw("n_pre_q", 3))],
+                         [POOL[tape.draw("pre_s", len(POOL))] for _ in range(1 + tape.draw("n_pre_s", 3))])
     path = store.scratch()
     try:
         if crash:
